@@ -73,6 +73,27 @@ Theorem C13_early_flush_example :
         (RFrame 1, [(1, 0); (1, 1); (1, 2); (1, 3); (1, 4)])].
 Proof. exact early_flush_then_frame_call. Qed.
 
+(* with the whole input there, a frame call made while rows are outstanding SUCCEEDS with exactly those rows - also in the early-flush state of the LAST frame (frame already counted off), where the call used to answer end-of-image (second repaired defect of the mid-frame switch) *)
+Theorem C13_frame_call_in_mid_frame_completes_the_frame :
+  forall (im : image) (s : rstate) (j : nat),
+       cur s < length (rows im) ->
+       next_row s = Some j ->
+       j < nrows im (cur s) ->
+       (flushed s = false -> remaining s <> 0) ->
+       exists s' : rstate,
+         step im (total im) s OFrame =
+         (s', RFrame (cur s), map (fun i : nat => (cur s, i)) (seq j (nrows im (cur s) - j))) /\
+         cur s' = cur s /\ next_row s' = None /\ flushed s' = true.
+Proof. exact frame_call_in_mid_frame_completes_the_frame. Qed.
+
+(* non-vacuity: the early-flush state of the last frame is reachable in the model; the frame call completes the frame and only the next call reports the end *)
+Theorem C13_early_flush_on_the_last_frame_example :
+  let im := {| rows := [5]; declared := 1; has_fctl := fun _ : nat => false |} in
+       snd (run im (reader_init im) [(ORow, 5); (ORow, 5); (ORowF, 5); (OFrame, 5); (OFrame, 5)]) =
+       [(RRow 0 0, [(0, 0)]); (RRow 0 1, [(0, 1)]); (RRow 0 2, [(0, 2)]); (RFrame 0, [(0, 3); (0, 4)]);
+        (REndOfImage, [])].
+Proof. exact early_flush_on_the_last_frame. Qed.
+
 (* non-vacuity: APNG with frames of 3 and 2 rows; two row calls, then next_frame finishes frame 0 with exactly the last row *)
 Definition ex_im := mk_image [3; 2] 2 (fun _ => true).
 Example C13_nonvacuous :
@@ -86,3 +107,5 @@ Print Assumptions C13_cursor_invariant_initially.
 Print Assumptions C13_cursor_invariant_preserved.
 Print Assumptions C13_frame_call_in_mid_frame_stays_on_the_frame.
 Print Assumptions C13_early_flush_example.
+Print Assumptions C13_frame_call_in_mid_frame_completes_the_frame.
+Print Assumptions C13_early_flush_on_the_last_frame_example.
